@@ -15,13 +15,15 @@
 (*              scrypt(pw, salt) at the zero nonce                         *)
 (*   changepass password change: salt; seals the same private key under    *)
 (*              scrypt(pw', salt) at the zero nonce                        *)
+(*   rand       the library's generator itself: secure_random(n) and       *)
+(*              PrivateKey::generate(), no seal                            *)
 (* All operations of a history use the same inputs (same parties, same     *)
 (* password, same plaintext): the worst case for reuse.                    *)
 (***************************************************************************)
 EXTENDS Naturals, Sequences, FiniteSets, TLC, Json
 CONSTANTS MaxOps, NChunks, Reuse
 
-OpKinds == {"kenc", "penc", "generate", "changepass"}
+OpKinds == {"kenc", "penc", "generate", "changepass", "rand"}
 
 VARIABLES hist,    \* sequence of operation names
           supply,  \* next unused value of the supply
@@ -56,11 +58,17 @@ DoChangePass ==
     /\ drawn' = Append(drawn, [kind |-> "salt", v |-> s]) /\ supply' = supply + 1
     /\ sealed' = sealed \cup {[key |-> <<"scrypt", s>>, nonce |-> 0, msg |-> <<"sk", "existing", Len(hist)>>]}
 
+DoRand ==
+  \E a \in Cand(supply), b \in Cand(supply + 1) :
+    /\ drawn' = drawn \o <<[kind |-> "random", v |-> a], [kind |-> "privkey", v |-> b]>> /\ supply' = supply + 2
+    /\ sealed' = sealed
+
 Next == /\ Len(hist) < MaxOps
         /\ \E op \in OpKinds :
              /\ hist' = Append(hist, op)
              /\ CASE op = "kenc" -> DoKenc [] op = "penc" -> DoPenc
                   [] op = "generate" -> DoGenerate [] op = "changepass" -> DoChangePass
+                  [] op = "rand" -> DoRand
 Spec == Init /\ [][Next]_vars
 
 AllFresh  == \A i, j \in 1..Len(drawn) : i # j => drawn[i].v # drawn[j].v
